@@ -396,12 +396,39 @@ func runParsingDuration(sel int, data []byte) textResult {
 // the evaluator then builds a string / list of that size.  Only consulted once
 // the memory blow-up is listed as a known finding, so that the search can go on
 // without the watchdog ending the process.
-var cueRunaway = regexp.MustCompile(`\*\s*[0-9_]{9,}|[0-9_]{9,}\s*\*`)
+var cueRunaway = regexp.MustCompile(`(\]?)\s*\*\s*([0-9_]{9,})|([0-9_]{9,})\s*\*\s*(\[?)`)
+
+// cueDangerous reports whether a CUE document would make the evaluator build a
+// multi-gigabyte value: any list multiplied by a number of nine or more
+// digits, or anything multiplied by a 9..17 digit number.  A string multiplied
+// by a number of 18 or more digits overflows at once (the evaluator panics
+// immediately, which the decoder must turn into an error), so it is kept.
+func cueDangerous(data []byte) bool {
+	for _, m := range cueRunaway.FindAllSubmatch(data, -1) {
+		num, list := m[2], len(m[1]) > 0
+		if len(num) == 0 {
+			num, list = m[3], len(m[4]) > 0
+		}
+		digits := 0
+		for _, c := range num {
+			if c != '_' {
+				digits++
+			}
+		}
+		if digits < 9 {
+			continue
+		}
+		if list || digits <= 17 {
+			return true
+		}
+	}
+	return false
+}
 
 func runDecoder(name string, dec dials.Decoder) func(sel int, data []byte) textResult {
 	return func(sel int, data []byte) textResult {
 		ft := decoderTypes[sel%len(decoderTypes)]
-		if name == "Cue" && knownDefect(keyMemory) && cueRunaway.Match(data) {
+		if name == "Cue" && knownDefect(keyMemory) && cueDangerous(data) {
 			return textResult{labels: []string{"cfg:" + ft.name, "known-runaway-input-skipped"}}
 		}
 		var v reflect.Value
